@@ -319,7 +319,7 @@ theorem showD_tree (hpct : '%' ∉ cfg.conv) (hf : firing cfg '$' = [.show]) (hf
   simp only [showD]
   rw [e1, e2, e3]
 
-/-- **Range_Show**: `<'Range' At 0x` pointer ` [` values `]>`, each value one `%i` call -/
+/-- **Range_Show**: `<'Range' At 0x` pointer ` [` values `]>`, each value one call with the item format read from the source (`%li` since fix 78c2117) -/
 theorem showD_range (hpct : '%' ∉ cfg.conv) (hfp : firing cfg 'p' = [.obj]) (b : Str) (c : Char) (hfc : firing cfg c = [.cint])
     (pre post : Str) (h1 : parseFmt cfg.conv sc.rngOpen = some [.lit pre, .spec [] 'p', .lit post])
     (h2 : parseFmt cfg.conv sc.rngItem = some [.spec b c])
@@ -351,5 +351,32 @@ theorem showD_slice (hpct : '%' ∉ cfg.conv) (hd : '$' ∈ cfg.conv) (hf : firi
     funext (print_lit cfg prim _ hpct _ h3 [])
   simp only [showD]
   rw [e1, e2, e3]
+
+/-- one `frag` call per value is "each value shown by its own show", when the show of an Int IS that call -/
+theorem showIntsSpec_eq_items (frag sep : Str) (elem : Obj → Out → Out × Outcome)
+    (he : ∀ n o, elem (.int n) o = o.call prim frag (.i64 n)) :
+    ∀ (ns : List Int) (o : Out), showIntsSpec prim frag sep ns o = showItemsSpec prim elem sep (ns.map Obj.int) o := by
+  intro ns
+  induction ns with
+  | nil => intro o; rfl
+  | cons n r ih =>
+    intro o
+    cases r with
+    | nil => simp [showIntsSpec, showItemsSpec, he]
+    | cons m r =>
+      have h3 : showIntsSpec prim frag sep (m :: r) = showItemsSpec prim elem sep ((m :: r).map Obj.int) := by
+        funext o; exact ih o
+      have h1 : (fun o => o.call prim frag (.i64 n)) = elem (.int n) := by
+        funext o; exact (he n o).symm
+      simp only [showIntsSpec, List.map_cons, showItemsSpec]
+      rw [h1, h3]
+      rfl
+
+/-- **Int_Show**: one call with the Int's value and the format of `Int_Show` -/
+theorem showD_int (hpct : '%' ∉ cfg.conv) (b : Str) (c : Char) (hfc : firing cfg c = [.cint])
+    (h : parseFmt cfg.conv sc.intFmt = some [.spec b c]) (d : Nat) (n : Int) (o : Out) :
+    showD cfg prim sc (d + 1) (.int n) o = o.call prim sc.intFmt (.i64 n) := by
+  simp only [showD]
+  exact print_int cfg prim _ hpct b c hfc _ h n o
 
 end Cello.Fmt
